@@ -80,8 +80,67 @@ fn check_one(
     Ok(assigned)
 }
 
+/// "... only while the number-pad option is on" and "for the current AltGr state", for a context whose options are
+/// changed by update-engine: every published key x {no modifier, AltGr} is pressed as the LAST key before the change
+/// and again as the FIRST key after it (number pad on -> off, off -> on, layout A -> layout B), so that anything the
+/// engine remembers about "the key it saw last" meets the same key under the new configuration.
+fn same_key_across_update(run: &Run) {
+    let lays: HashMap<Layout, HashMap<String, String>> = [Layout::Probhat, Layout::Synthetic, Layout::Exotic].into_iter().map(|l| (l, load_layout_json(l))).collect();
+    let mut items: Vec<(Layout, bool, Layout, bool)> = vec![];
+    for l in [Layout::Probhat, Layout::Synthetic, Layout::Exotic] {
+        items.push((l, true, l, false));
+        items.push((l, false, l, true));
+    }
+    items.push((Layout::Probhat, true, Layout::Synthetic, true));
+    items.push((Layout::Synthetic, false, Layout::Exotic, true));
+    run.exhaustive(
+        "same-key-last-before-and-first-after-update-engine",
+        &items,
+        |_| Sandbox::new(),
+        |&(l1, n1, l2, n2), st, sb| {
+            let mk = |l: Layout, n: bool| {
+                let mut o = Opts::parse("D");
+                o.layout = l;
+                o.numpad = n;
+                o
+            };
+            let (o1, o2) = (mk(l1, n1), mk(l2, n2));
+            let mut ctx = Ctx::new(o1, sb).map_err(|p| Failure::new(panic_kind(&p), p.to_string(), json!({})))?;
+            for k in &keys().keys {
+                for m in [0u8, 2] {
+                    let case = || json!({"same_key_across_update": {"from": o1.letters(), "to": o2.letters(), "code": k.code, "modifier": m}});
+                    let pf = |p: crate::driver::PanicInfo| Failure::new(panic_kind(&p), p.to_string(), case());
+                    ctx.finish().map_err(pf)?;
+                    ctx.update(o1, sb).map_err(pf)?;
+                    let before = ctx.key(k.code, m, 0).map_err(pf)?;
+                    let want1 = layout_value(&lays[&l1], k, m & 2 != 0, n1).unwrap_or_default();
+                    ctx.finish().map_err(pf)?;
+                    ctx.update(o2, sb).map_err(pf)?;
+                    let after = ctx.key(k.code, m, 0).map_err(pf)?;
+                    let want2 = layout_value(&lays[&l2], k, m & 2 != 0, n2).unwrap_or_default();
+                    st.evals(1);
+                    if before.text != want1 || after.text != want2 {
+                        return Err(Failure::new(
+                            "wrong-text-across-update-engine",
+                            format!("key {} modifier {m}: under {} it gave {:?} (layout file: {want1:?}); after update-engine to {} the same key gave {:?} (layout file: {want2:?})", k.name, o1.letters(), before.text, o2.letters(), after.text),
+                            case(),
+                        ));
+                    }
+                    if want1 != want2 {
+                        st.nontrivial(hash_of(&(o1.letters(), o2.letters(), k.code, m)), || json!({"from": o1.letters(), "to": o2.letters(), "key": k.name, "modifier": m, "before": want1, "after": want2}));
+                        st.label("same-key-different-assignment-across-update");
+                    }
+                }
+            }
+            Ok(())
+        },
+    );
+    run.require_label("same-key-different-assignment-across-update", 100);
+}
+
 pub fn run(run: &Run) {
     after_layout_switch(run);
+    same_key_across_update(run);
     let mods = modifiers(run.tier);
     let mut items = vec![];
     for layout in [Layout::Probhat, Layout::Synthetic, Layout::Exotic] {
@@ -183,6 +242,24 @@ fn after_layout_switch(run: &Run) {
 }
 
 pub fn replay(_run: &Run, case: &Value) -> Result<(), Failure> {
+    if let Some(sk) = case.get("same_key_across_update") {
+        let (o1, o2) = (Opts::parse(sk["from"].as_str().unwrap_or_default()), Opts::parse(sk["to"].as_str().unwrap_or_default()));
+        let (code, m) = (sk["code"].as_u64().unwrap_or(0) as u16, sk["modifier"].as_u64().unwrap_or(0) as u8);
+        let sb = Sandbox::new();
+        let pf = |p: crate::driver::PanicInfo| Failure::new(panic_kind(&p), p.to_string(), case.clone());
+        let mut ctx = Ctx::new(o1, &sb).map_err(pf)?;
+        let before = ctx.key(code, m, 0).map_err(pf)?;
+        ctx.finish().map_err(pf)?;
+        ctx.update(o2, &sb).map_err(pf)?;
+        let after = ctx.key(code, m, 0).map_err(pf)?;
+        let k = keys().by_code(code);
+        let want1 = k.and_then(|k| layout_value(&load_layout_json(o1.layout), k, m & 2 != 0, o1.numpad)).unwrap_or_default();
+        let want2 = k.and_then(|k| layout_value(&load_layout_json(o2.layout), k, m & 2 != 0, o2.numpad)).unwrap_or_default();
+        if before.text != want1 || after.text != want2 {
+            return Err(Failure::new("wrong-text-across-update-engine", format!("before {:?} (want {want1:?}), after {:?} (want {want2:?})", before.text, after.text), case.clone()));
+        }
+        return Ok(());
+    }
     let by_name = |n: Option<&str>| match n {
         Some("Synthetic") => Layout::Synthetic,
         Some("Twin") => Layout::Twin,
